@@ -72,7 +72,14 @@ def main():
                "baseline_off_cmd": "bash /verif/tools/baseline_off.sh",
                "source_commits": [c.split()[0] for c in hooks_commits],
                "add_only": True},
-     "engines": [],
+     "engines": [
+        {"name": "enginemon", "path": "/verif/harness/enginemon", "serves_properties": ["C01", "C02", "C03", "C04", "C05", "C06", "C07", "C20"],
+         "kind_free_text": "C++ harness: generated programs/histories on the real BuildEngine, shadow-record monitors, schedule control through the guarded hooks, C and C++ front ends, crash child"},
+        {"name": "bsmonitor", "path": "/verif/checks/bslib.py", "serves_properties": ["C08", "C09", "C10", "C11", "C12", "C14", "C18"],
+         "kind_free_text": "Python build-system monitor: description/manifest generators, deterministic helper command (harness/bscmd.c) with predicted outputs, BuildSystemFrontend client (harness/bsdriver.cpp), history runners"},
+        {"name": "unit-monitors", "path": "/verif/harness", "serves_properties": ["C11", "C13", "C14", "C15", "C16", "C17", "C19"],
+         "kind_free_text": "single-component C++ harnesses (file info, codec, prefix predicate, deps parsers, queue monitor, shell quoting, libFuzzer targets) run under ASan/UBSan/TSan/valgrind"},
+     ],
      "checks": [],
      "notes": "All checks are runtime monitors over executions of the real code (see DESIGN.md). exit 0 held / 1 violation / 2 inconclusive or harness failure.",
      "not_applicable": [],
